@@ -77,7 +77,7 @@ def run_workers(prop: str, cfg: dict[str, Any], tier: str, seed: int, scratch: s
         modes = [(int(only['x64']), 1, only.get('part'))]
     else:
         modes = []
-        for mode in cfg['modes']:
+        for mode in (cfg.get('modes_thorough') if tier == 'thorough' and cfg.get('modes_thorough') else cfg['modes']):
             x64, nshards = mode[0], mode[1]
             part = mode[2] if len(mode) > 2 else None
             modes.append((x64, nshards, part))
@@ -229,7 +229,8 @@ def check(prop: str, tier: str, seed: int, replay: str | None = None) -> int:
             'distinct_cases': len(m['cases']),
             'rule': cfg['rule'],
             'samples': m['samples'] or ['(no sample recorded)'],
-            'exhaustive': bool(cfg.get('exhaustive', False)),
+            'exhaustive': bool((cfg.get('exhaustive') or {}).get(tier, False)) and not any(
+                k.startswith('time-capped') for k in m['hist'].get('budget', {})),
             'monitors': {k: {'evaluated': v['evaluated'], 'violated': v['violated'],
                              'skipped': dict(v['skipped'])} for k, v in sorted(m['counters'].items())},
             'histograms': {k: dict(Counter(v).most_common(60)) for k, v in sorted(m['hist'].items())},
